@@ -502,6 +502,11 @@ impl<'tcx> Cx<'tcx> {
             }
         }
         o.push(("mir", self.body(def, body)));
+        // promoted constants (e.g. `&Claim::Mutable` in `x != Claim::Mutable`)
+        let promoted = self.tcx.promoted_mir(def);
+        if !promoted.is_empty() {
+            o.push(("promoted", J::Arr(promoted.iter().map(|b| self.body(def, b)).collect())));
+        }
         J::Obj(o)
     }
 
